@@ -56,7 +56,7 @@ Lemma visit_SDef : forall pk nd ln dln eln name a ds body st,
    let st3 := py_raise (snd r) (replace_top (fst r) st1) in
    let st4 := emit [def_event name a ds ln cur] st3 in
    if descends cur name a ds
-   then pop_discard (visit_list PFunction None None body (push (empty_frame InInit name (child_path cur name)) st4))
+   then pop_fun (def_installed (fmembers cur) name ds) name (visit_list PFunction None None body (push (empty_frame InInit name (child_path cur name)) st4))
    else st4).
 Proof. reflexivity. Qed.
 
@@ -98,7 +98,7 @@ Lemma sem_SDef : forall g pk nd ln dln eln name a ds body own up,
    let evs := [EvNode "function" ln; def_event name a ds ln own] in
    if descends own name a ds then
      let b := sem_list g PFunction None body (empty_frame InInit name (child_path own name)) (fst r) in
-     mkL (l_up b) up (evs ++ l_events b) (first_err (snd r) (l_err b))
+     mkL (close_fun (def_installed (fmembers own) name ds) name (l_own b) (l_up b)) up (evs ++ l_events b) (first_err (snd r) (l_err b))
    else mkL (fst r) up evs (snd r)).
 Proof. intros. simpl. destruct (op_def g ln dln eln name a ds (head_doc body) own). reflexivity. Qed.
 
@@ -220,6 +220,12 @@ Proof.
   destruct (items_ok items); auto with c01.
 Qed.
 
+Lemma shape_close_fun : forall inst name c p, same_shape p (close_fun inst name c p).
+Proof.
+  intros. unfold close_fun. destruct inst; auto with c01.
+  destruct (lookup name (fmembers p)) as [[i ? ? ?]|]; auto with c01. destruct (ikind i); auto with c01.
+Qed.
+
 (* handle_attribute: shapes kept; below a module or class frame the parent frame is not touched and not read *)
 Ltac destr_attr_loop :=
   match goal with |- context [attr_loop ?a ?b ?c ?d ?e ?f ?n ?l ?dd ?fr] =>
@@ -286,7 +292,8 @@ Proof.
     destruct (descends own name a ds) eqn:D.
     + pose proof (sem_facts_list_of _ H g PFunction None (empty_frame InInit name (child_path own name))
                     (fst (op_def g ln dln eln name a ds (head_doc body) own))) as [B1 [B2 _]].
-      cbn beta iota delta [l_own l_up l_events l_err fst snd]. split; [eapply same_shape_trans; eauto|]. split; [apply same_shape_refl|].
+      cbn beta iota delta [l_own l_up l_events l_err fst snd].
+      split; [eapply same_shape_trans; [exact S|]; eapply same_shape_trans; [exact B2|apply shape_close_fun]|]. split; [apply same_shape_refl|].
       intros _. split; [reflexivity|]. intros up'. rewrite sem_SDef. cbv zeta. rewrite D. reflexivity.
     + cbn beta iota delta [l_own l_up l_events l_err fst snd]. split; [exact S|]. split; [apply same_shape_refl|].
       intros _. split; [reflexivity|]. intros up'. rewrite sem_SDef. cbv zeta. rewrite D. reflexivity.
@@ -395,7 +402,7 @@ Proof.
     change (match er with Some x => Some x | None => snd r end) with (first_err er (snd r)).
     destruct (descends own name a ds) eqn:D.
     + match goal with |- context [visit_list PFunction None None ?bb ?ss] => rewrite (ref_list_of _ H PFunction None None ss (empty_frame InInit name (child_path own name)) (fst r) (up :: rest) eq_refl) end.
-      unfold list_guard, lift, pop_discard, set_stack. cbn [stack guarded events err l_own l_up l_events l_err].
+      unfold list_guard, lift, pop_fun, set_stack. cbn [stack guarded events err l_own l_up l_events l_err].
       destruct body; cbn [stack guarded events err l_own l_up l_events l_err];
         rewrite <- !app_assoc; rewrite ?first_err_assoc; reflexivity.
     + unfold lift. cbn [stack guarded events err l_own l_up l_events l_err]. rewrite <- app_assoc. reflexivity.
@@ -749,6 +756,13 @@ Proof.
   destruct (lookup n ms); [reflexivity|discriminate].
 Qed.
 
+Lemma keys_close_fun : forall inst name c p, keys (fmembers (close_fun inst name c p)) = keys (fmembers p).
+Proof.
+  intros. unfold close_fun. destruct inst; auto.
+  destruct (lookup name (fmembers p)) as [[i ? ? ?]|] eqn:L; auto. destruct (ikind i); auto.
+  cbn [fmembers set_members]. rewrite keys_assign. unfold has_key. rewrite L. reflexivity.
+Qed.
+
 (* names bound on the receiving frame by one definition *)
 Definition def_names (name : string) (a : bool) (ds : list deco) : list string :=
   if def_is_property a ds then [name] else if def_is_overload ds then [] else [name].
@@ -910,15 +924,21 @@ Proof.
       destruct (sem_list_facts body g PFunction None (empty_frame InInit name (child_path own name))
                   (fst (op_def g ln dln eln name a ds (head_doc body) own))) as [[E _] _].
       rewrite E in B. simpl fkind in B. cbv iota in B.
-      assert (R : match fkind (l_up (sem_list g PFunction None body (empty_frame InInit name (child_path own name))
-                                      (fst (op_def g ln dln eln name a ds (head_doc body) own)))) with
-                  | InInit => up | _ => l_up (sem_list g PFunction None body (empty_frame InInit name (child_path own name))
-                                      (fst (op_def g ln dln eln name a ds (head_doc body) own))) end
-                  = l_up (sem_list g PFunction None body (empty_frame InInit name (child_path own name))
-                                      (fst (op_def g ln dln eln name a ds (head_doc body) own)))).
-      { destruct (sem_list_facts body g PFunction None (empty_frame InInit name (child_path own name))
-                  (fst (op_def g ln dln eln name a ds (head_doc body) own))) as [_ [[E2 _] _]]. rewrite E2, S1, Kd. reflexivity. }
-      rewrite R, B, K.
+      assert (R : forall z : frame, match fkind (close_fun (def_installed (fmembers own) name ds) name
+                                      (l_own (sem_list g PFunction None body (empty_frame InInit name (child_path own name))
+                                      (fst (op_def g ln dln eln name a ds (head_doc body) own))))
+                                      (l_up (sem_list g PFunction None body (empty_frame InInit name (child_path own name))
+                                      (fst (op_def g ln dln eln name a ds (head_doc body) own))))) with
+                  | InInit => up | _ => z end = z).
+      { intros z. destruct (sem_list_facts body g PFunction None (empty_frame InInit name (child_path own name))
+                  (fst (op_def g ln dln eln name a ds (head_doc body) own))) as [_ [[E2 _] _]].
+        destruct (shape_close_fun (def_installed (fmembers own) name ds) name
+                    (l_own (sem_list g PFunction None body (empty_frame InInit name (child_path own name))
+                                      (fst (op_def g ln dln eln name a ds (head_doc body) own))))
+                    (l_up (sem_list g PFunction None body (empty_frame InInit name (child_path own name))
+                                      (fst (op_def g ln dln eln name a ds (head_doc body) own))))) as [E3 _].
+        rewrite E3, E2, S1, Kd. reflexivity. }
+      rewrite R, keys_close_fun, B, K.
       unfold level_names, level_names_list. rewrite Kd. simpl fkind. cbv iota. rewrite lb_SDef, Pr, Nm.
       unfold def_names. rewrite Pr. rewrite map_app, extend_app.
       destruct (def_is_overload ds); reflexivity.
@@ -1036,6 +1056,23 @@ Qed.
 Definition osum (o : obj) : okind * nat * bool := (ikind (oinfo o), iline (oinfo o), iruntime (oinfo o)).
 Definition bsum (b : binding) : okind * nat * bool := (okind_of_bkind (b_kind b), b_line b, negb (b_guard b)).
 Definition rel (o : option obj) (c : option binding) : Prop := option_map osum o = option_map bsum c.
+
+Lemma oinfo_close_fun : forall inst name c p n,
+  option_map oinfo (lookup n (fmembers (close_fun inst name c p))) = option_map oinfo (lookup n (fmembers p)).
+Proof.
+  intros. unfold close_fun. destruct inst; auto.
+  destruct (lookup name (fmembers p)) as [[i ? ? ?]|] eqn:L; auto. destruct (ikind i); auto.
+  cbn [fmembers set_members]. destruct (String.eqb name n) eqn:E.
+  - apply String.eqb_eq in E. subst n. rewrite lookup_assign_same, L. reflexivity.
+  - rewrite lookup_assign_other; auto.
+Qed.
+Lemma osum_close_fun : forall inst name c p n,
+  option_map osum (lookup n (fmembers (close_fun inst name c p))) = option_map osum (lookup n (fmembers p)).
+Proof.
+  intros. pose proof (oinfo_close_fun inst name c p n) as H.
+  destruct (lookup n (fmembers (close_fun inst name c p))), (lookup n (fmembers p)); simpl in *; try discriminate; auto.
+  injection H as H. unfold osum. rewrite H. reflexivity.
+Qed.
 
 Lemma survivor_app : forall n a b c, survivor n c (a ++ b) = survivor n (survivor n c a) b.
 Proof. induction a as [|x a IH]; intros; simpl; auto. destruct (_ && _); apply IH. Qed.
@@ -1203,7 +1240,10 @@ Proof.
       cbv zeta in B. unfold receiver in B. simpl fkind in B. cbv iota in B. specialize (B K).
       destruct (sem_list_facts body g PFunction None (empty_frame InInit name (child_path own name)) own1) as [[E _] [[E2 _] _]].
       rewrite E in B. simpl fkind in B. cbv iota in B.
-      rewrite E2, S1.
+      destruct (shape_close_fun (def_installed (fmembers own) name ds) name
+                  (l_own (sem_list g PFunction None body (empty_frame InInit name (child_path own name)) own1))
+                  (l_up (sem_list g PFunction None body (empty_frame InInit name (child_path own name)) own1))) as [E3 _].
+      rewrite E3, E2, S1. unfold rel. rewrite osum_close_fun. fold (rel (lookup n (fmembers (l_up (sem_list g PFunction None body (empty_frame InInit name (child_path own name)) own1)))) (survivor n c (level_binds own g pk (SDef ln dln eln name a ds body)))).
       unfold level_binds. rewrite Kd, lb_SDef, Pr, Nm.
       unfold level_binds_list in B. simpl fkind in B. cbv iota in B.
       unfold def_bindings in B. rewrite Pr in B. rewrite survivor_app. exact B.
@@ -1334,7 +1374,7 @@ Proof.
 Qed.
 
 (* ================= regression examples for repaired defects, witness of the remaining one ================= *)
-Definition member_doc (mname : string) (body : list stmt) (n : string) : option (option nat) :=
+Definition member_doc (mname : string) (body : list stmt) (n : string) : option (option (nat * nat)) :=
   match run_visit mname body with Ok r => option_map (fun o => idoc (oinfo o)) (lookup n (r_members r)) | Err _ => None end.
 Definition member_labels (mname : string) (body : list stmt) (n : string) : option (list string) :=
   match run_visit mname body with Ok r => option_map (fun o => ilabels (oinfo o)) (lookup n (r_members r)) | Err _ => None end.
@@ -1349,7 +1389,7 @@ Definition overload_in_init_witness : list stmt :=
   [SCls 1 1 4 "C" [] [SDef 2 2 4 "__init__" false [] [SDef 4 3 4 "f" false [DPath "typing.overload"] [SOther]]]].
 Example repaired_defects :
   member_doc "m" doc_else_witness "x" = Some None /\
-  member_doc "m" chained_leak_witness "x" = Some (Some 2) /\
+  member_doc "m" chained_leak_witness "x" = Some (Some (2, 2)) /\
   member_doc "m" chained_leak_witness "y" = Some None /\
   member_labels "m" chained_leak_witness "y" = Some ["module-attribute"; "async"] /\
   (exists r, run_visit "m" overload_in_init_witness = Ok r).
